@@ -1290,6 +1290,9 @@ export class TupleRuntype extends BaseRuntype {
           popPath(ctx);
         }
       }
+    } else if (input.length > idx) {
+      // validate() rejects extra items when there is no rest element
+      acc.push(...buildError(ctx, `expected tuple with ${idx} items`, input));
     }
 
     return acc;
